@@ -10,7 +10,7 @@ import json, os, re, shutil, subprocess, sys, time
 V = os.path.dirname(os.path.dirname(os.path.abspath(__file__)))
 phase, pid, mn = sys.argv[1], sys.argv[2], sys.argv[3]
 extra = sys.argv[4:]
-src = next(f"{r}/{pid}/{mn}" for r in ("/tmp/mut_out7", "/tmp/mut_out6", "/tmp/mut_out5", "/tmp/mut_out4", "/tmp/mut_out3", "/tmp/mut_out2", "/tmp/mut_out") if os.path.exists(f"{r}/{pid}/{mn}/meta.json"))
+src = next(f"{r}/{pid}/{mn}" for r in ("/tmp/mut_out8", "/tmp/mut_out7", "/tmp/mut_out6", "/tmp/mut_out5", "/tmp/mut_out4", "/tmp/mut_out3", "/tmp/mut_out2", "/tmp/mut_out") if os.path.exists(f"{r}/{pid}/{mn}/meta.json"))
 wt = f"/tmp/sv_wt_{pid}_{mn}"
 env = dict(os.environ, CARGO_NET_OFFLINE="true", CARGO_TARGET_DIR="/tmp/sv_target_" + os.environ.get("SV_SLOT", "0"), WT=wt)
 
